@@ -256,9 +256,14 @@ func check(s *sw.Sys) []seqx.Viol {
 						}
 					}
 					if !found {
-						add("held-back-without-video", "joined a stream with no video (publisher %d), but the next message %s was not delivered", c.JoinInc, P[i])
+						add("held-back-without-video", "joined a stream with no video (publisher %d), but the message %s was not delivered", c.JoinInc, P[i])
+						break
 					}
-					break
+					// every message counts for as long as the stream has no video: up to the first video
+					// sequence header or frame, or the end of this publisher
+					if i+1 < len(P) && (hdrClass(P[i+1].Kind) == "vsh" || isVideo(P[i+1].Kind) || P[i+1].Inc != P[i].Inc) {
+						break
+					}
 				}
 			}
 		}
@@ -344,6 +349,16 @@ func configs(r *vk.Run) []sw.SysOpts {
 	for i, h := range hist {
 		for _, g := range []int{1, 2} {
 			add(fmt.Sprintf("gop%d-after-history%d", g, i), leanTs, true, "rtmp.gop_num", g, "httpflv.gop_num", g, "httpts.gop_num", g)
+			cs[len(cs)-1].Prefix = h
+			cs[len(cs)-1].MaxInc = 3
+		}
+	}
+	// a consumer that joins in the gap between two publishers, the second with other tracks (audio only
+	// after audio + video, video only after audio)
+	gap := []string{"P:vsh", "P:key", "P:ash", "P:aac", "J:rtmp", "J:flv", "J:ts", "PubArrive", "PubLeave"}
+	for i, h := range [][]string{{"P:vsh", "P:key", "P:inter", "PubLeave"}, {"P:vsh", "P:ash", "P:key", "P:aac", "PubLeave"}, {"P:ash", "P:aac", "PubLeave"}} {
+		for _, g := range []int{0, 1} {
+			add(fmt.Sprintf("gop%d-join-in-gap%d", g, i), gap, true, "rtmp.gop_num", g, "httpflv.gop_num", g, "httpts.gop_num", g)
 			cs[len(cs)-1].Prefix = h
 			cs[len(cs)-1].MaxInc = 3
 		}
